@@ -490,6 +490,23 @@ func (k *Case) probeFids() {
 		k.ch.Writing = true
 		m, _, err := c.RecvFrame(k.ch)
 		valid := err == nil && m != nil && m.Type != 107
+		if !valid {
+			// unknown to requests -- but is the number free?  A fid left half-made in the table answers 'unknown fid'
+			// to a Tstat and 'fid already in use' to a Tattach
+			a := k.msgFor("Attach", 60001, f, 0, 0)
+			c.SendRaw(k.ch, encode(a, k.ch.Dotu), nil)
+			k.ch.Writing = true
+			ra, _, aerr := c.RecvFrame(k.ch)
+			switch {
+			case aerr == nil && ra != nil && ra.Type == 107 && ra.Ename == "fid already in use":
+				valid = true
+			case aerr == nil && ra != nil && ra.Type == 105:
+				cl := k.msgFor("Clunk", 60002, f, 0, 0)
+				c.SendRaw(k.ch, encode(cl, k.ch.Dotu), nil)
+				k.ch.Writing = true
+				c.RecvFrame(k.ch)
+			}
+		}
 		saved = append(saved, Event{"ev": "probe", "fid": f, "valid": valid, "initial": initial[f]})
 	}
 	c.Wait()
